@@ -16,7 +16,8 @@ From Coq Require Import NArith ZArith Reals List.
 From Flocq Require Import Core.Raux.
 From Coq Require Import Floats.
 From DS Require Import Base.Prelude Base.FloatBits Base.FloatLemmas Model.Bounds Model.HllEst Proofs.BoundsFloat Proofs.BoundsProofs Proofs.BoundsCeil
-  Proofs.CouponSweepDefs Proofs.CouponSweep.
+  Proofs.CouponSweepDefs Proofs.CouponSweep Model.Composite Proofs.CompositeProofs Proofs.RefTablesMatch.
+From DS Require Spec.RefTables Gen.GenBoundsHll Gen.GenBoundsComposite Gen.GenBoundsCpc Gen.GenBoundsTheta Gen.GenHll.
 Open Scope N_scope.
 
 (* ---- binary64 division, the engine of every bound: monotone in the dividend, antitone in a positive divisor,
@@ -107,6 +108,76 @@ Theorem c01_theta_exact_mode :
   theta_estimate false n MAX_THETA = u2f n /\
   theta_lower_of n MAX_THETA raw_lb = u2f n /\ theta_upper_of empty n MAX_THETA raw_ub = u2f n.
 Proof. exact theta_exact_mode. Qed.
+
+(* ---- HLL out-of-order (composite) estimator: hll/cubic_interpolation.rs find_straddle returns, for EVERY table of finite
+        numbers and every finite x with xs[0] <= x < xs[last], an index i with xs[i] <= x < xs[i+1] ... ---- *)
+Theorem c01_find_straddle_correct :
+  forall xs x, all_fin xs -> fin x -> (2 <= length xs)%nat ->
+  PrimFloat.leb (HllEst.fnth xs 0) x = true -> PrimFloat.ltb x (HllEst.fnth xs (N.of_nat (length xs) - 1)) = true ->
+  let i := find_straddle xs x in
+  i + 1 < N.of_nat (length xs) /\
+  PrimFloat.leb (HllEst.fnth xs i) x = true /\ PrimFloat.ltb x (HllEst.fnth xs (i + 1)) = true.
+Proof. exact find_straddle_correct. Qed.
+
+(* ... and the 18 translated composite x-arrays (lg_k 4..21) have 257 finite, positive, strictly increasing entries and a
+   positive y stride, so for every finite raw estimate inside a table the interpolation uses a straddling index *)
+Theorem c01_composite_tables_increasing : forall lgk, 4 <= lgk <= 21 -> table_ok lgk = true.
+Proof. exact composite_tables_ok. Qed.
+
+Theorem c01_composite_straddle :
+  forall lgk raw, 4 <= lgk <= 21 -> fin raw ->
+  let xs := X_ARRAY lgk in
+  PrimFloat.leb (HllEst.fnth xs 0) raw = true -> PrimFloat.ltb raw (HllEst.fnth xs 256) = true ->
+  let i := find_straddle xs raw in
+  i + 1 < 257 /\ PrimFloat.leb (HllEst.fnth xs i) raw = true /\ PrimFloat.ltb raw (HllEst.fnth xs (i + 1)) = true.
+Proof. exact composite_straddle. Qed.
+
+(* ---- the empirically fitted tables and constants of every estimator (HLL relative-error tables and RSE factors, raw-estimate
+        correction factors, composite x-arrays / y strides / crossover constants, harmonic numbers, coupon interpolation
+        arrays, CPC ICON polynomial and confidence tables, theta binomial equivalence tables and tail probabilities), as
+        re-read from the Rust source on this run, equal the frozen reference of Spec/RefTables.v.  These fits have no
+        derivation to be proved against: their published values are the specification of "unbiased, RSE as advertised";
+        a change makes the check search for a configuration with significant bias or under-coverage (Monte Carlo) ---- *)
+Theorem c01_estimator_tables_are_reference :
+  GenBoundsHll.HIP_LB = RefTables.GenBoundsHll.HIP_LB /\
+  GenBoundsHll.HIP_UB = RefTables.GenBoundsHll.HIP_UB /\
+  GenBoundsHll.NON_HIP_LB = RefTables.GenBoundsHll.NON_HIP_LB /\
+  GenBoundsHll.NON_HIP_UB = RefTables.GenBoundsHll.NON_HIP_UB /\
+  GenBoundsHll.FLIT_get_rel_err = RefTables.GenBoundsHll.FLIT_get_rel_err /\
+  GenBoundsHll.FLIT_get_raw_estimate = RefTables.GenBoundsHll.FLIT_get_raw_estimate /\
+  GenBoundsHll.FLIT_get_composite_estimate = RefTables.GenBoundsHll.FLIT_get_composite_estimate /\
+  GenBoundsComposite.ARRAYS = RefTables.GenBoundsComposite.ARRAYS /\
+  GenBoundsComposite.Y_STRIDES = RefTables.GenBoundsComposite.Y_STRIDES /\
+  GenBoundsComposite.EXACT_HARMONIC = RefTables.GenBoundsComposite.EXACT_HARMONIC /\
+  GenBoundsComposite.EULER_MASCHERONI_bits = RefTables.GenBoundsComposite.EULER_MASCHERONI_bits /\
+  GenHll.X_ARR = RefTables.GenHll.X_ARR /\ GenHll.Y_ARR = RefTables.GenHll.Y_ARR /\
+  GenHll.COUPON_RSE_FACTOR_bits = RefTables.GenHll.COUPON_RSE_FACTOR_bits /\
+  GenBoundsCpc.ICON_POLYNOMIAL_COEFFICIENTS = RefTables.GenBoundsCpc.ICON_POLYNOMIAL_COEFFICIENTS /\
+  GenBoundsCpc.FLIT_icon_estimate = RefTables.GenBoundsCpc.FLIT_icon_estimate /\
+  GenBoundsCpc.ICON_LOW_SIDE_DATA = RefTables.GenBoundsCpc.ICON_LOW_SIDE_DATA /\
+  GenBoundsCpc.ICON_HIGH_SIDE_DATA = RefTables.GenBoundsCpc.ICON_HIGH_SIDE_DATA /\
+  GenBoundsCpc.HIP_LOW_SIDE_DATA = RefTables.GenBoundsCpc.HIP_LOW_SIDE_DATA /\
+  GenBoundsCpc.HIP_HIGH_SIDE_DATA = RefTables.GenBoundsCpc.HIP_HIGH_SIDE_DATA /\
+  GenBoundsCpc.ICON_ERROR_CONSTANT_bits = RefTables.GenBoundsCpc.ICON_ERROR_CONSTANT_bits /\
+  GenBoundsCpc.HIP_ERROR_CONSTANT_bits = RefTables.GenBoundsCpc.HIP_ERROR_CONSTANT_bits /\
+  GenBoundsTheta.LB_EQUIV_TABLE = RefTables.GenBoundsTheta.LB_EQUIV_TABLE /\
+  GenBoundsTheta.UB_EQUIV_TABLE = RefTables.GenBoundsTheta.UB_EQUIV_TABLE /\
+  GenBoundsTheta.DELTA_OF_NUM_STD_DEVS = RefTables.GenBoundsTheta.DELTA_OF_NUM_STD_DEVS.
+Proof.
+  pose proof estimator_tables_are_reference as H.
+  repeat split;
+    first [ exact ref_GenBoundsHll_HIP_LB | exact ref_GenBoundsHll_HIP_UB | exact ref_GenBoundsHll_NON_HIP_LB
+          | exact ref_GenBoundsHll_NON_HIP_UB | exact ref_GenBoundsHll_FLIT_get_rel_err | exact ref_GenBoundsHll_FLIT_get_raw_estimate
+          | exact ref_GenBoundsHll_FLIT_get_composite_estimate | exact ref_GenBoundsComposite_ARRAYS | exact ref_GenBoundsComposite_Y_STRIDES
+          | exact ref_GenBoundsComposite_EXACT_HARMONIC | exact ref_GenBoundsComposite_EULER_MASCHERONI_bits
+          | exact ref_GenHll_X_ARR | exact ref_GenHll_Y_ARR | exact ref_GenHll_COUPON_RSE_FACTOR_bits
+          | exact ref_GenBoundsCpc_ICON_POLYNOMIAL_COEFFICIENTS | exact ref_GenBoundsCpc_FLIT_icon_estimate
+          | exact ref_GenBoundsCpc_ICON_LOW_SIDE_DATA | exact ref_GenBoundsCpc_ICON_HIGH_SIDE_DATA
+          | exact ref_GenBoundsCpc_HIP_LOW_SIDE_DATA | exact ref_GenBoundsCpc_HIP_HIGH_SIDE_DATA
+          | exact ref_GenBoundsCpc_ICON_ERROR_CONSTANT_bits | exact ref_GenBoundsCpc_HIP_ERROR_CONSTANT_bits
+          | exact ref_GenBoundsTheta_LB_EQUIV_TABLE | exact ref_GenBoundsTheta_UB_EQUIV_TABLE
+          | exact ref_GenBoundsTheta_DELTA_OF_NUM_STD_DEVS ].
+Qed.
 
 (* non-vacuity: concrete bounds of an lg_k = 12 HLL sketch and an lg_k = 11 CPC sketch (1000 coupons, HIP 1003.7) *)
 Example c01_example :
